@@ -29,6 +29,9 @@ pub mod tokens;
 pub mod validation;
 pub mod version;
 
+#[cfg(paseto_rs_verif)]
+pub mod verif;
+
 use alloc::boxed::Box;
 use core::error::Error;
 
